@@ -5,6 +5,7 @@ package main
 import (
 	"errors"
 	"fmt"
+	"os"
 	"strings"
 
 	"github.com/bitcoin-sv/block-headers-service/domains"
@@ -141,6 +142,14 @@ func runC05(c *Ctx) error {
 		if err != nil {
 			return false, err
 		}
+		if mode == "sfault" && k < 2 && tag != "corpus" && tag != "only" {
+			// no state update can be planned for a header that extends the tip or has an unstored parent: skip those
+			t, terr := s.Repo.Headers.GetTip()
+			par, perr := s.Repo.Headers.GetHeaderByHash(m.Src[i].PrevBlock.String())
+			if terr != nil || t == nil || perr != nil || par == nil || par.Hash == t.Hash || par.IsOrphan() {
+				return false, nil
+			}
+		}
 		var outs []string
 		var hit bool
 		if mode == "sfault" {
@@ -157,7 +166,12 @@ func runC05(c *Ctx) error {
 			if _, err := s.DB.Exec("DROP TRIGGER verif_fault"); err != nil {
 				return false, err
 			}
-			hit = strings.HasPrefix(o, "E") || o == "P"
+			// always recorded: whether the statement was reached is the MODEL's prediction (an error that is
+			// swallowed below the repository must not make the case disappear)
+			hit = true
+			if os.Getenv("VERIF_DEBUG") != "" {
+				fmt.Fprintf(os.Stderr, "sfault k=%d outcome=%s\n", k, o)
+			}
 			outs = []string{o}
 		} else if mode == "ckill" {
 			hookArmed, commitBudget, commitsSeen, hookHit = true, k, 0, false
@@ -214,7 +228,41 @@ func runC05(c *Ctx) error {
 		return true, nil
 	}
 	zeroEvery := 0
+	insEvery := 0
 	all := func(h *History, tag string, modes []string, budget *int) error {
+		wantS := false
+		nm := modes[:0:0]
+		for _, mo := range modes {
+			if mo == "sfault" {
+				wantS = true
+			} else {
+				nm = append(nm, mo)
+			}
+		}
+		modes = nm
+		if wantS {
+			// a storage error on one statement kind (0 demote, 1 promote, 2 insert) while header i is added
+			for i := range h.Subs {
+				for kind := 0; kind < 3; kind++ {
+					if *budget <= 0 {
+						return nil
+					}
+					if kind == 2 && tag != "corpus" {
+						insEvery++
+						if insEvery%5 != 0 {
+							continue
+						}
+					}
+					ok, err := doCase(h, "sfault", i, kind, tag)
+					if err != nil {
+						return err
+					}
+					if ok {
+						*budget--
+					}
+				}
+			}
+		}
 		for i := range h.Subs {
 			for k := 0; k < 3; k++ {
 				if k == 0 && tag != "corpus" {
